@@ -191,6 +191,10 @@ def c16(seed, n, pool=None, processes=3):
         cases.append(('c16-%d' % i, c))
     src = [(i, c.rust()) for i, c in cases]
     runs = [k1.run_real(src, repeat=3)] + [k1.run_real(src) for _ in range(processes - 1)]
+    # history: the same inputs in another order in one process ("for all prior expansions in the same process")
+    rs = random.Random('c16o-%d' % seed)
+    perm = list(src); rs.shuffle(perm)
+    reordered = [k1.run_real(perm), k1.run_real(list(reversed(src)))]
     # the same macro source built under the release profile (no debug assertions, no overflow checks):
     # "the output depends on nothing but the input tokens and the enabled features"
     rel = None
@@ -207,6 +211,9 @@ def c16(seed, n, pool=None, processes=3):
     for i, c in cases:
         outs = [r[i] for r in runs]
         stats['cases'] += 1
+        if outs[0][0] != 'NONDET' and all(o == outs[0] for o in outs[1:]) and any(ro.get(i) != outs[0] for ro in reordered):
+            fails.append(dict(key='c16:history:' + k1lib_hash(c.rust()), input=c.rust(),
+                              what='the expansion of this input depends on which other inputs were expanded before it in the same process'))
         if rel is not None and i in rel and outs[0][0] != 'NONDET' and rel[i] != outs[0]:
             fails.append(dict(key='c16:profile:' + k1lib_hash(c.rust()), input=c.rust(),
                               what='the same input expands differently when the macro crate is built under the release profile (debug assertions / overflow checks off): %s vs %s'
@@ -387,6 +394,32 @@ def c18(seed, n, inproc=None):
             pool = F if i % 3 else TWELVE
             c = gen.gen_case('c18-%d-%d-%d' % (seed, k, i), 0, pool, want_fault=False)
             cases.append(('c18-%d-%d' % (k, i), c))
+        # systematic: every shape (struct / enum / union, with and without a type-level Default expression) educing one
+        # enabled trait, with an attribute of a DISABLED trait on a field or a variant: must be refused
+        import dinput as D
+        e = lambda txt: [D.educe(txt)] if txt else []
+        off = [t for t in TWELVE if t not in F]
+        gk = 0
+        for B in F:
+            for X in off[:4]:
+                for form in ('%s', '%s(ignore)', '%s = false'):
+                    x = form % X
+                    tb = {'Into': 'Into(u8)'}.get(B, B)
+                    shapes = [D.Input('struct', 'S', attrs=e(tb), fkind='named', fields=[D.Field('a', 'u8', attrs=e(x))]),
+                              D.Input('enum', 'E', attrs=e(tb), variants=[D.Variant('A', 'unnamed', fields=[D.Field(None, 'u8')], attrs=e(('Default, ' if B == 'Default' else '') + x))]),
+                              D.Input('enum', 'E', attrs=e(tb), variants=[D.Variant('A', 'unnamed', fields=[D.Field(None, 'u8', attrs=e(x))], attrs=e('Default' if B == 'Default' else ''))])]
+                    ub = {'Debug': 'Debug(unsafe)', 'PartialEq': 'PartialEq(unsafe)', 'Hash': 'Hash(unsafe)', 'Clone': 'Clone', 'Copy': 'Copy', 'Eq': 'Eq',
+                          'Default': 'Default'}.get(B)
+                    if ub:
+                        shapes.append(D.Input('union', 'U', attrs=e(ub), fields=[D.Field('a', 'u8', attrs=e(x)), D.Field('b', 'u16')] if B != 'Default'
+                                              else [D.Field('a', 'u8', attrs=e('Default, ' + x)), D.Field('b', 'u16')]))
+                        if B == 'Default':
+                            shapes.append(D.Input('union', 'U', attrs=e('Default(expression = U { a: 1 })'), fields=[D.Field('a', 'u8', attrs=e(x)), D.Field('b', 'u16')]))
+                            shapes.append(D.Input('struct', 'S', attrs=e('Default(expression = S { a: 1 })'), fkind='named', fields=[D.Field('a', 'u8', attrs=e(x))]))
+                            shapes.append(D.Input('enum', 'E', attrs=e('Default(expression = E::A(1))'), variants=[D.Variant('A', 'unnamed', fields=[D.Field(None, 'u8', attrs=e(x))])]))
+                    for inp in shapes:
+                        inp.traits = [B, X]; inp.fault = 'grid:disabled'; inp.notes = {}
+                        cases.append(('c18g-%d-%d' % (k, gk), inp)); gk += 1
         src = [(i, c.rust()) for i, c in cases]
         sub = k1.run_real(src, driver=os.path.join(tdir, 'debug', 'k1driver'))
         full = k1.run_real(src)
@@ -549,12 +582,91 @@ def c13_grid():
         inp.notes = {}; inp.traits = []
     return cases
 
-def rejections(seed, n, pool=None, must=None, key='rej'):
+def rejections(seed, n, pool=None, must=None, key='rej', kinds=('struct', 'enum', 'union')):
     """the rejection side of a behavioural property: a request in which a field / variant designation that the
     generated code cannot honour (two markers, a parameter where it has no effect, a method where the body is a
     bitwise copy, ...) must be refused, not accepted with the designation dropped.  Same classifiers as C13,
     inputs drawn around the property's own traits."""
-    return c13(seed, n, pool=pool, must=must, key=key)
+    return c13(seed, n, pool=pool, must=must, key=key, kinds=kinds, use_grid=(tuple(kinds) != ('union',)))
+
+def c13_subsets(seed, n):
+    """the same rejection test with the macro built under feature subsets (a check that is compiled out together with
+    a feature would only show there); classifiers evaluated with the same feature set"""
+    r = random.Random('c13s-%d' % seed)
+    sets = [[t for t in TWELVE if t != 'Into'],
+            sorted(r.sample(TWELVE, r.randrange(3, 9)), key=TWELVE.index),
+            sorted(r.sample([t for t in TWELVE if t != 'Into'], r.randrange(2, 6)), key=TWELVE.index)]
+    if n >= 20000:
+        sets += [sorted(r.sample(TWELVE, r.randrange(1, 11)), key=TWELVE.index) for _ in range(9)]
+    hdir = os.path.join(vlib.ROOT, 'harness')
+    tdir = os.path.join(vlib.BUILD, 'c13harness')
+    env = dict(os.environ, CARGO_NET_OFFLINE='true', CARGO_TARGET_DIR=tdir)
+    fails = []
+    stats = collections.Counter()
+    grid = c13_grid()
+    for k, F in enumerate(sets):
+        p = vlib.run_cargo(['cargo', 'build', '--offline', '--no-default-features', '--features', ' '.join(F)], cwd=hdir, env=env, timeout=900)
+        if p.returncode != 0:
+            stats['harness_build_failed'] += 1
+            continue
+        rr = random.Random('c13s-%d-%d' % (seed, k))
+        cases = [('c13s-%d-g%d' % (k, j), c) for j, c in enumerate(grid) if rr.random() < 0.2]
+        for i in range(min(n, 1500) // 3):
+            c = gen.gen_case('c13s-%d-%d-%d' % (seed, k, i), 0, F, want_fault=(i % 10 != 0))
+            cases.append(('c13s-%d-%d' % (k, i), c))
+        real = k1.run_real([(i, c.rust()) for i, c in cases], driver=os.path.join(tdir, 'debug', 'k1driver'))
+        cls = k1.run_classes([(i, c.sx()) for i, c in cases], features=','.join(F))
+        for i, c in cases:
+            if i not in cls:
+                continue
+            allc, modgap, gap = cls[i]
+            stats['cases'] += 1
+            if outcome(real[i])[0] == 'OK' and modgap:
+                fails.append(dict(key='c13:features:' + k1lib_hash(c.rust()), input=c.rust(), features=F, classes=modgap,
+                                  what='with features [%s] the request contains %s and is accepted instead of refused' % (' '.join(F), ', '.join(modgap))))
+    return fails, [], dict(stats, feature_sets=len(sets))
+
+# ---------------------------------------------------------------- C12 (bound = false adds nothing)
+def c12(seed, n):
+    """`bound = false` / `bound(false)` / `bound = ""`: the where-clause of that trait's impl is exactly the type's own
+    where-clause (read off the REAL expansion, no model involved)"""
+    import rlex
+    cases = []
+    for i in range(n):
+        c = gen.gen_case('c12-%d-%d' % (seed, i), 0, list(gen.GENS.keys()), want_fault=False, kinds=('struct', 'enum', 'union'))
+        cases.append(('c12-%d' % i, c))
+    real = k1.run_real([(i, c.rust()) for i, c in cases])
+    fails = []
+    stats = collections.Counter(cases=len(cases))
+    def strip_commas(ts):
+        ts = list(ts)
+        while ts and ts[-1] == ',':
+            ts.pop()
+        return ts
+    for i, c in cases:
+        r = outcome(real[i])
+        if r[0] != 'OK':
+            continue
+        text = ' '.join(a.rust() for a in c.attrs)
+        off = set(m.group(1) for m in re.finditer(r'\b(Debug|Clone|Copy|PartialEq|Eq|PartialOrd|Ord|Hash|Default)\s*\((?:[^()]|\([^()]*\))*?\bbound\s*(?:=\s*false|\(\s*false\s*\)|=\s*""|\(\s*""\s*\))', text))
+        if not off:
+            continue
+        try:
+            want = strip_commas(rlex.flat(rlex.lex(c.generics.rust_where().replace('where', '', 1)))) if c.generics.rust_where().strip() else []
+        except Exception:
+            continue
+        for key, h, b in k1lib.segments(r[2]):
+            if key[0] in off:
+                h = list(h)
+                got = []
+                if 'where' in h:
+                    k = len(h) - 1 - h[::-1].index('where')
+                    got = strip_commas(h[k + 1:])
+                stats['headers_checked'] += 1
+                if got != want:
+                    fails.append(dict(key='c12:' + k1lib_hash(c.rust() + key[0]), input=c.rust(), trait=key[0],
+                                      what='`bound = false` on %s: the impl header carries the where-clause `%s` instead of the type\'s own `%s`' % (key[0], ' '.join(got), ' '.join(want))))
+    return fails, [], dict(stats)
 
 # ---------------------------------------------------------------- C04 (discriminants the macro cannot evaluate)
 def c04(seed, n):
